@@ -139,6 +139,21 @@ Theorem quiescent_point_judgement_is_sound : forall h t tr prev n rv cs l i x m 
 Proof. exact prop_thread_observation_sound. Qed.
 Print Assumptions quiescent_point_judgement_is_sound.
 
+(* ... and for an EXCLUSIVE subscriber the judgement compares Values() with the values of the
+   key -> value relation implied by the calls it must have received ([sp_run true log]; the record
+   is extended by [track_step] with the calls of every delivery): accepted means exactly the live
+   values of that call log - only the most recently registered key of each value counts. *)
+Theorem exclusive_judgement_is_live_values : forall m prev log pv tv vals notes,
+  Check.cont_ok (true, m, prev) (true, sp_run true log, pv) tv (vals, notes) = true ->
+  forall v, In v vals <-> live true log v.
+Proof. exact exclusive_judgement_sound. Qed.
+Print Assumptions exclusive_judgement_is_live_values.
+
+Theorem judgement_record_is_the_call_log : forall x log pv lv,
+  Check.track_step lv (x, sp_run x log, pv) = (x, sp_run x (log ++ lv), Check.vals_of (sp_run x (log ++ lv))).
+Proof. exact track_step_log. Qed.
+Print Assumptions judgement_record_is_the_call_log.
+
 (* non-vacuity: etcd: put 1=10, put 2=20; a non-exclusive subscriber that showed [10] before and
    shows [10; 20] now, notified once with the final view *)
 Example ex_judgement :
